@@ -61,7 +61,7 @@ def gen_config(rng, idx, shared_names, rich, kinds=None):
         lvl = rng.choice([pe, fu_level])
         lvl["local"].append({"name": "Isect" + sfx, "class": "Intersector", "attrs": {"type": itype}})
     fu_level["local"].append({"name": "Mul" + sfx, "class": "compute", "attrs": {"type": "mul"}})
-    fu_level["local"].append({"name": "Add" + sfx, "class": "compute", "attrs": {"type": "add"}})
+    rng.choice([pe, fu_level, fu_level])["local"].append({"name": "Add" + sfx, "class": "compute", "attrs": {"type": "add"}})
     if rng.random() < 0.5:
         rng.choice([root, pe, fu_level])["local"].append(
             {"name": "Seq" + sfx, "class": "Sequencer", "attrs": {"num_ranks": 3}})
@@ -104,9 +104,12 @@ def gen(rng, rich=True, n_einsums=None, special_names=True):
     einsums = []
     formats = {}
     prev = None
+    # style of the whole cascade: blocks with ONE timed component summed over several Einsums need Einsums that
+    # bind (almost) no functional unit
+    style = rng.choice(["normal"] * 7 + ["memonly", "memonly", "fewfus"])
     for i, nm in enumerate(names):
         decl[nm] = ["M", "N"]
-        fuse = bool(einsums) and rng.random() < 0.5 and len(einsums[-1]["loop"]) == 3
+        fuse = bool(einsums) and rng.random() < (0.5 if style == "normal" else 0.8) and len(einsums[-1]["loop"]) == 3
         if prev is not None and not fuse and rng.random() < 0.35:
             expr = "%s[m, n] = %s[m, n] * C[m, n]" % (nm, prev)
             ins = {prev: ["M", "N"], "C": ["M", "N"]}
@@ -147,7 +150,7 @@ def gen(rng, rich=True, n_einsums=None, special_names=True):
                         d["pbits"] = rng.choice([32, 64, 0]) if rng.random() < 0.1 else rng.choice([32, 64])
                     f[r] = d
                 spec[fname] = f
-        e["bindings"] = gen_bindings(rng, e, dict(arch)[cfg], formats, avoid, sparse=rng.random() < 0.2)
+        e["bindings"] = gen_bindings(rng, e, dict(arch)[cfg], formats, avoid, sparse=rng.random() < 0.2, style=style)
         decl_cls = {c["name"]: c["class"].lower() for c, _ in config_components(dict(arch)[cfg])}
         e["used_fus"] = sorted(avoid | set(n for n, bs in e["bindings"] if bs and decl_cls.get(n) in FUNCTIONAL))
         einsums.append(e)
@@ -155,7 +158,7 @@ def gen(rng, rich=True, n_einsums=None, special_names=True):
     return {"decl": decl, "einsums": einsums, "formats": formats, "arch": arch, "shared_names": shared}
 
 
-def gen_bindings(rng, e, tree, formats, avoid=(), sparse=False):
+def gen_bindings(rng, e, tree, formats, avoid=(), sparse=False, style="normal"):
     comps = config_components(tree)
     by_class = {}
     for c, d in comps:
@@ -179,6 +182,8 @@ def gen_bindings(rng, e, tree, formats, avoid=(), sparse=False):
             b["evict-on"] = rng.choice(above + ["root"]) if above else "root"
         return b
     pmem, pl2, pbuf = rng.choice([(0.8, 0.5, 0.6), (0.9, 0.8, 0.8), (0.5, 0.3, 0.5), (0.0, 0.0, 0.0)])
+    if style == "memonly":
+        pmem, pl2, pbuf = rng.choice([(0.9, 0.0, 0.9), (0.9, 0.0, 0.9), (0.0, 0.0, 0.0)])
     in_mem = [k for k in keys if rng.random() < pmem]
     in_l2 = [k for k in keys if l2 is not None and rng.random() < pl2]
     tensors = sorted(e["tensors"])
@@ -200,6 +205,10 @@ def gen_bindings(rng, e, tree, formats, avoid=(), sparse=False):
             entries[bf["name"]] = (bf["name"], [mk(k, True) for k in in_buf[bf["name"]]])
     fus = []
     pf = 0.3 if sparse else 1.0
+    if style == "memonly":
+        pf = 0.0
+    elif style == "fewfus":
+        pf = 0.2
     for c in by_class.get("intersector", []):
         shared = [r for r in loop if sum(1 for t, rs in e["inputs"].items() if r in rs) >= 2]
         if shared and c["name"] not in avoid and rng.random() < 0.7 * pf:
